@@ -152,7 +152,7 @@ type SourceIndex struct {
 	Paragraph
 
 	Package  string
-	Binaries []string `control:"Binary" delim:"," strip:" "`
+	Binaries []string `control:"Binary" delim:"," strip:"\n\r\t "`
 
 	Version    version.Version
 	Maintainer string
